@@ -215,7 +215,7 @@ func forEachDOM(s string, f func(ctx string, scripting bool, n *html.Node) error
 	return nil
 }
 
-var voidEls = map[string]bool{"area": true, "base": true, "br": true, "col": true, "embed": true, "hr": true, "img": true, "input": true, "link": true,
+var voidEls = map[string]bool{"area": true, "base": true, "br": true, "col": true, "embed": true, "hr": true, "img": true, "image": true, "input": true, "link": true,
 	"meta": true, "param": true, "source": true, "track": true, "wbr": true, "frame": true, "basefont": true, "bgsound": true, "keygen": true}
 
 // elements whose content the tokenizer reads as raw text / RCDATA
